@@ -1,5 +1,5 @@
 CONSTANTS
-  MaxLen = 11
+  MaxLen = 10
   Lenient = FALSE
   Dev = {}
 INIT Init
